@@ -719,6 +719,14 @@ def _encodings_clause(ctx, env, rnd, search):
             if hs and first:
                 P.soil = hs
                 P.rootdepth, P.draindepth, P.drainpct, P.gw = first[32:34].strip(), first[62:64].strip(), first[67:70].strip(), first[70:72].strip()
+        # measured initial water: mode 1 (share of the plant-available water), 2 (gravimetric, converted), 3 (volumetric); dated after the start
+        md = ["1", "2", "3"][k % 3]
+        e_ = list(P.endit)
+        e_[4] = md
+        if md != "1":
+            for q_ in (5, 6, 7, 11, 12, 13):
+                e_[q_] = "0.%03d" % rnd.randrange(100, 260 if md == "2" else 380)
+        P.endit = tuple(e_)
         # a drain inside the profile; its share of the seepage as a fraction (0,1] or as a percentage (1,100]
         P.draindepth = "%02d" % rnd.randrange(4, 12)
         P.drainpct = ["0.5", "50", "1", "10", "0.3", "00"][k] if k < 6 else rnd.choice(["0.5", "0.3", "1", "10", "50", "100", "00", ".25"])
@@ -739,6 +747,22 @@ def _encodings_clause(ctx, env, rnd, search):
             groups.append(("date-format:%s:p%d" % (f, k), d0, add(f, None, None, datefmt=f, drop_dates=True), "dates written as %s vs DateDElong" % f))
         groups.append(("date-format:separator:p%d" % k, d0, add("dsep", None, None, datefmt="DateDElong", sep=".", drop_dates=True),
                        "dates written dd.mm.yyyy vs ddmmyyyy"))
+        if k == 0 or (ctx.thorough and k % 3 == 0):
+            # the century split of the two-digit formats AT the first / last two-digit year of the run: all four formats pairwise
+            for (ya, yb), cents in (((1980, 1981), (80, 79)), ((1998, 2000), (98, 1))):
+                Q = F.base_project(rnd, crops=crops, years=(ya, yb))
+                Q.soil, Q.cfg = P.soil, dict(P.cfg)
+                for cent in cents:
+                    qi = {}
+                    for f in F.DATEFMTS:
+                        nm = "%s_c%d%s%d" % (base, ya % 100, f[4:], cent)
+                        F.write_project(env, nm, Q, datefmt=f, drop_dates=True, cfg={"DivideCentury": cent})
+                        lines.append(F.line_for(nm, Q)); qi[f] = len(lines) - 1
+                        datefree.add(len(lines) - 1)
+                    for i1, f1 in enumerate(F.DATEFMTS):
+                        for f2 in F.DATEFMTS[i1 + 1:]:
+                            groups.append(("date-format:century-split-%d:%s-vs-%s:%d-%d:p%d" % (cent, f1[4:], f2[4:], ya, yb, k), qi[f1], qi[f2],
+                                           "run %d-%d with DivideCentury %d, dates written as %s vs %s" % (ya, yb, cent, f1, f2)))
         if k % 3 == 0 or ctx.thorough:
             # fertiliser-demand prediction: the prediction date is written in the project's format too (19xx and 20xx, split at 50)
             for cy, (ya, yb) in (("19xx", (1980, 1983)), ("20xx", (1998, 2003))):
@@ -904,6 +928,14 @@ def input_states(ctx, env, lines):
     return out
 
 
+def _err_class(e):
+    """a run error without what varies between two runs of the same failure (addresses, goroutine numbers, dates as printed)"""
+    import re as _re
+    e = _re.sub(r"0x[0-9a-f]+|goroutine \d+|\+0x[0-9a-f]+", "", e or "")
+    e = _re.sub(r"\b\d\d\.\d\d\.\d\d(\d\d)?\b", "DATE", e)
+    return ("process died" if e.startswith("process died") else e)[:160]
+
+
 def stale_field_test(ctx, env, fails):
     """'does not read what the reader did not set': classic-format runs with RGA / RGB / SubOrgan overwritten every day while the
     current crop's N function is not 5 (harness stalerun) must give the results of the undisturbed runs"""
@@ -982,16 +1014,19 @@ def _oracle(ctx, search, env):
                                   replay={"cwd": "scratch copy of /repo/examples with the generated project", "line_a": lines[a], "line_b": lines[b_]}))
     ctx.extra["input_states_compared"] = len(want)
     nontrivial = both_fail = 0
+    both_fail_errors = {}
     for key, a, b_, what in groups:
         ra, rb = runs[a], runs[b_]
         if ra.err and rb.err:
-            if key.startswith("sweep:") and "before harvest" in ra.err and "before harvest" in rb.err:
-                fails.append(Fail(key="sweep-run-error:tillage-postponed-under-AutoHarvest:" + key.split(":")[-1],
-                                  what="%s: both runs end with: %s" % (what, ra.err), line=ra.line))
-            elif key.startswith("crop-converter-variant"):
-                both_fail += 1          # a generated variant the model cannot run with: the same failure on both paths
+            # both members end in a reported run error: no difference between the encodings (counted, never an alarm) — unless
+            # the two errors are different ones
+            ea, eb = _err_class(ra.err), _err_class(rb.err)
+            if ea == eb:
+                both_fail += 1
+                both_fail_errors[ea] = both_fail_errors.get(ea, 0) + 1
             else:
-                fails.append(Fail(key="both-runs-fail:" + key, what="%s: both runs fail: %s" % (what, ra.err), line=ra.line))
+                fails.append(Fail(key="different-run-errors:" + key, what="%s: the two runs end with different errors: %s | %s" % (what, ra.err[:200], rb.err[:200]),
+                                  replay={"line_a": ra.line, "line_b": rb.line}))
             continue
         if F.same(ra, rb):
             nontrivial += 1
@@ -1017,7 +1052,11 @@ def _oracle(ctx, search, env):
     ctx.extra["paired_runs"] = len(lines)
     ctx.extra["pairs"] = len(groups)
     ctx.extra["pairs_identical"] = nontrivial
-    ctx.extra["variant_pairs_where_both_runs_fail_alike"] = both_fail
+    ctx.extra["pairs_where_both_runs_end_with_the_same_run_error"] = both_fail
+    ctx.extra["run_errors_common_to_both_members"] = both_fail_errors
+    if groups and both_fail * 2 > len(groups):
+        fails.append(Fail(key="oracle-vacuous", what="more than half of the pairs end in run errors on both sides: the run sets do not exercise the property",
+                          errors=both_fail_errors))
     clause = {}
     for key, _, _, _ in groups:
         clause[key.split(":")[0]] = clause.get(key.split(":")[0], 0) + 1
